@@ -58,7 +58,9 @@ def gen_case(rng, tier, index):
     if rng.random() < 0.2:
         dels.append([dels[0][0], not dels[0][1]])
     return {"fmt": fmt, "syms": syms, "dels": dels,
-            "extra_def": rng.random() < 0.5, "extra_need": rng.random() < 0.5}
+            "extra_def": rng.random() < 0.5, "extra_need": rng.random() < 0.5,
+            "driver": rng.choice(["ctx", "ctx", "passes"]),
+            "data_only": rng.random() < 0.25}
 
 
 def exhaustive(tier):
@@ -93,7 +95,10 @@ def build(case):
     n = len(case["syms"])
     bi = gtirb.ByteInterval(contents=bytes(16 * n + 16), address=0x1000)
     bi.section = sec
-    code = gtirb.CodeBlock(offset=0, size=8 * n + 8)
+    # (a module without any code - a table of pointers, say - is rewritten
+    # like any other)
+    code = (gtirb.DataBlock if case.get("data_only") else gtirb.CodeBlock)(
+        offset=0, size=8 * n + 8)
     code.byte_interval = bi
     data = gtirb.DataBlock(offset=8 * n + 8, size=8 * n + 8)
     data.byte_interval = bi
@@ -217,11 +222,30 @@ def run_case(case):
            "table_comparisons": 0}
     ir, m, bi, code, syms, model = build(case)
     n = len(syms)
-    ctx = RewritingContext(m, [])
     force = {}
     for i, f in case["dels"]:
-        ctx.delete_symbol(syms[i], force=f)
         force[i] = f and force.get(i, True)
+    if case.get("driver") == "passes":
+        from gtirb_rewriting import Pass, PassManager
+
+        class Deleter(Pass):
+            def begin_module(self, module, functions, rctx):
+                if module is m:
+                    for i, f in case["dels"]:
+                        rctx.delete_symbol(syms[i], force=f)
+        pm = PassManager()
+        pm.add(Deleter())
+
+        class _Ctx:
+            @staticmethod
+            def apply():
+                pm.run(ir)
+        ctx = _Ctx
+        ctr["through_passmanager"] = 1
+    else:
+        ctx = RewritingContext(m, [])
+        for i, f in case["dels"]:
+            ctx.delete_symbol(syms[i], force=f)
     dele = set(force)
     # expected outcome
     uses = {i: [o for o, ss in model["exprs"].items() if i in ss]
